@@ -83,6 +83,10 @@ def gen_game(rng, n, style):
         finals = [extra, F] if rng.random() < 0.5 else [F, extra]
         if rng.random() < 0.3:
             finals.append(F)    # repetition
+    if style not in ("stopping", "exact") and rng.random() < 0.12:
+        # the initial state itself is final and not absorbing (legal for the reachability claims; the reward
+        # claims C02/C06/C14 quantify over games whose final states are absorbing)
+        finals = [0] + finals if rng.random() < 0.5 else finals + [0]
     game = dict(rewards=rew, players=players, transition_list=tl, final_states=finals)
     meta = dict(fr=frs, style=style)
     perm = list(range(1, n))
